@@ -5,7 +5,7 @@ random DAG generator.
 from vp import gen
 
 
-def base_program(pkg, layout="three", import_form="from_import", entry_data=False, with_ext=True, local=False):
+def base_program(pkg, layout="three", import_form="from_import", entry_data=False, with_ext=True, local=False, setvar=False):
     """
     main
      |- x0 = keep /a  A(1, 2)           literal arguments            A -> h1 -> h2, A -> C (data /c)
@@ -68,6 +68,8 @@ def base_program(pkg, layout="three", import_form="from_import", entry_data=Fals
         gen.s_keep("/empty/bytes", EMB, [gen.lit("1")]),
     ]
     p["entry"] = main
+    if setvar:
+        gen.add_setvar(p, leaf, [h2, C])
     if local:
         # function-local imports: `import dds` inside the functions that keep, and a top-level module that only
         # the body of h2 imports (so nothing has loaded it when the first analysis runs)
@@ -530,6 +532,11 @@ def random_program(rng, pkg, nfn=None, with_loads=False):
                 p["fns"][main]["stmts"].append(gen.s_call(g, args))
     p["entry"] = main
     p["ext"] = {"pkg": pkg + "_ext", "const": 1, "var": "1", "comment": "c"}
+    if rng.random() < 0.3:
+        m0 = rng.choice(mods)
+        rd = [g for g in fids + [main] if p["fns"][g]["module"] == m0]
+        if rd:
+            gen.add_setvar(p, m0, rng.sample(rd, min(len(rd), rng.randrange(1, 3))), frozen=rng.random() < 0.3)
     # function-local imports: `import dds` inside some bodies; a top-level module imported only inside one body
     if rng.random() < 0.35:
         for fid in fids + [main]:
